@@ -104,14 +104,25 @@ def writes_through(A, local=1):
 
 def loop_entry_value(A, t, head, blocks):
     """a loop-carried variable read inside the loop is an opaque phi; what the loop starts from is the variable's value at
-    the end of the loop's only outside predecessor.  t: N-form or raw term; returns an N-form term (t itself if it is not such a phi)"""
+    the end of the loop's only outside predecessor.  t: N-form or raw term; returns an N-form term (t itself if it is not such a phi).
+
+    Meant for the iterator a loop walks: answered only when a single call in the loop is handed the variable (its `next`) and
+    nothing in the loop stores to it - otherwise "the value on entry" says nothing about what the loop visits."""
     x = t
     if isinstance(x, tuple) and x and x[0] == "ref":
         x = x[1]
-    if isinstance(x, tuple) and len(x) > 2 and x[0] == "opq" and x[1] == "phi" and isinstance(x[2], int) and not (len(x) > 3 and x[3]):
+    if isinstance(x, tuple) and len(x) > 2 and x[0] == "opq" and x[1] == "phi" and isinstance(x[2], int):
         b = A.body
+        root = x[2]
         pre = [p for (p, _l) in b.pred[head] if p not in blocks]
-        if len(pre) == 1:
-            v = G.N(A.tb.read(x[2], (), (pre[0], len(b.stmts(pre[0])))))
-            return v
+        stores = [1 for bb_ in blocks for st_ in b.stmts(bb_) if st_["k"] == "assign" and st_["lhs"].get("l") == root]
+        stores += [1 for bb_, t_ in b.calls() if bb_ in blocks and (t_.get("dest") or {}).get("l") == root]
+        from . import seq as SQ_
+        ve = SQ_.VecEval(None, A)
+        handed = [bb_ for bb_, t_ in b.calls() if bb_ in blocks and any(ve.root_local(a_) == root for a_ in t_["args"])]
+        if len(pre) == 1 and not stores and len(handed) <= 1:
+            try:
+                return G.N(A.tb.read(root, tuple(x[3]) if len(x) > 3 and x[3] else (), (pre[0], len(b.stmts(pre[0])))))
+            except Exception:
+                return x
     return x
